@@ -367,12 +367,16 @@ func (a *API) WalkOp(name string, nReplies int) ([]OpPath, *Walker, error) {
 			return true
 		}
 		// unexported in-package helpers are part of the operation; boolean predicates stay opaque ("pred")
-		if f.Pkg == up && f.Object() != nil && !f.Object().Exported() && a.Senders[f] == "" && (f.Origin() == nil || a.Senders[f.Origin()] == "") {
+		obj := f.Object()
+		if obj == nil && f.Origin() != nil {
+			obj = f.Origin().Object() // an instantiation of a generic helper
+		}
+		if pkgOf(f) == up && obj != nil && !obj.Exported() && a.Senders[f] == "" && (f.Origin() == nil || a.Senders[f.Origin()] == "") {
 			res := f.Signature.Results()
 			if res.Len() == 1 && isBoolType(res.At(0).Type()) {
 				return false
 			}
-			return f.Name() != "debugf"
+			return !inertFn(f)
 		}
 		return false
 	}
